@@ -15,7 +15,7 @@ system registration, OpenType application) evaluated by TLC.  Binding:
 import json, os, re, random, time, concurrent.futures
 import common
 
-GLYPHS = [".notdef", "a", "b", "c", "d", "m"]
+GLYPHS = [".notdef", "a", "b", "c", "d", "m", "n"]
 SHAPES = {}  # compiled subtable shapes met by the interpreter (evidence)
 
 # ----------------------------------------------------------------------------- abstract program -> FEA text
@@ -65,12 +65,24 @@ def r_rule(r, names, cn):
     raise common.ToolError("rule type %r" % t)
 
 
+def r_flag(v, cn):
+    if v == 0:
+        return "0"
+    if v == 8:
+        return "IgnoreMarks"
+    if 100 < v < 200:
+        return "UseMarkFilteringSet %s" % cn[v - 101]
+    if v > 200:
+        return "MarkAttachmentType %s" % cn[v - 201]
+    raise common.ToolError("lookupflag value %r" % v)
+
+
 def r_stmts(body, names, cn, ind):
     out = []
     for s in body:
         k = s["k"]
         if k == "flag":
-            out.append(ind + ("lookupflag IgnoreMarks;" if s["v"] == 8 else "lookupflag 0;"))
+            out.append(ind + "lookupflag %s;" % r_flag(s["v"], cn))
         elif k == "script":
             out.append(ind + "script %s;" % s["tag"].strip())
         elif k == "lang":
@@ -95,7 +107,7 @@ def render(p, names=GLYPHS):
         out.append("%s = [%s];" % (n, " ".join(names[g] for g in c)))
     marks = set(p["marks"])
     if marks:
-        bases = [g for g in p["alpha"] if g not in marks]
+        bases = [g for g in range(1, len(names)) if g not in marks]
         out.append("table GDEF { GlyphClassDef [%s], , [%s], ; } GDEF;" %
                    (" ".join(names[g] for g in bases), " ".join(names[g] for g in sorted(marks))))
     for b in p["top"]:
@@ -261,6 +273,22 @@ def rule_types(p):
     return out
 
 
+def flag_values(p):
+    """values of the lookupflag statements of a program in source order (helper lookups aside)"""
+    out = []
+
+    def walk(body):
+        for st in body:
+            if st["k"] == "flag":
+                out.append(st["v"])
+            elif st["k"] == "L":
+                walk(st["body"])
+    for b in p["top"]:
+        if not (b["k"] == "L" and b["name"] in (8, 9)):
+            walk(b["body"])
+    return out
+
+
 def short_sig(fea):
     body = " ".join(l.strip() for l in fea.splitlines()
                     if l.strip() and not l.startswith(("@C", "table GDEF")))
@@ -340,6 +368,7 @@ class Recogniser:
         self.cls_idx = {}
         self.names = {}  # lookup name -> number
         self.marks = None
+        self.sets_used = False
         self.used = set()
 
     def peek(self, k=0):
@@ -501,10 +530,23 @@ class Recogniser:
                 return body
             if t == "lookupflag":
                 v = self.take()
-                if v not in ("0", "IgnoreMarks"):
+                if v in ("UseMarkFilteringSet", "MarkAttachmentType"):
+                    x = self.gc()
+                    if x["f"] == "n":
+                        k = x["gs"][0]
+                    else:
+                        self.cls.append(x["gs"])  # anonymous class of the projection
+                        k = len(self.cls)
+                    val = (100 if v == "UseMarkFilteringSet" else 200) + k
+                    self.sets_used = True
+                elif v in ("0", "IgnoreMarks"):
+                    val = 8 if v == "IgnoreMarks" else 0
+                else:
                     raise NotModelled("lookupflag %s" % v)
+                if self.peek() != ";":
+                    raise NotModelled("lookupflag combination")
                 self.take(";")
-                body.append({"k": "flag", "v": 8 if v == "IgnoreMarks" else 0})
+                body.append({"k": "flag", "v": val})
             elif t == "script" and in_feature:
                 tag = self.take()
                 self.take(";")
@@ -611,7 +653,7 @@ class Recogniser:
 
 def uses_flag(top):
     def walk(body):
-        return any((s["k"] == "flag" and s["v"] == 8) or (s["k"] == "L" and walk(s["body"])) for s in body)
+        return any((s["k"] == "flag" and s["v"] != 0) or (s["k"] == "L" and walk(s["body"])) for s in body)
     return any(walk(b["body"]) for b in top)
 
 
@@ -621,7 +663,7 @@ def project(text, order):
     ls, top = rec.program()
     if rec.marks is None and uses_flag(top):
         # without an explicit GDEF the glyph classes are inferred by the compiler: not in the model
-        raise NotModelled("IgnoreMarks without explicit GDEF classes")
+        raise NotModelled("mark-skipping lookupflag without explicit GDEF classes")
     used = sorted(rec.used)
     if len(used) > 7:
         raise NotModelled("more than 7 glyphs")
@@ -739,13 +781,14 @@ def main(ctx):
 
     quick = ctx.quick
     rng = random.Random(ctx.seed)
-    with concurrent.futures.ThreadPoolExecutor(3) as ex:
+    with concurrent.futures.ThreadPoolExecutor(4) as ex:
         # quick: every 6th A program and every 12th B candidate, the residue class chosen by the seed
-        sa, sb = (6, 12) if quick else (1, 1)
+        sa, sb, sd = (6, 12, 1) if quick else (1, 1, 1)   # D is small: never thinned
         fa = ex.submit(generate, ctx, "FeaSemGenA.cfg", "genA", stride=sa, offset=ctx.seed % sa)
         fb = ex.submit(generate, ctx, "FeaSemGenB.cfg", "genB", stride=sb, offset=(ctx.seed * 5) % sb)
         fc = ex.submit(generate, ctx, "FeaSemSim.cfg", "genC", 600 if quick else 12000, ctx.seed)
-        A, B, C = fa.result(), fb.result(), fc.result()
+        fd = ex.submit(generate, ctx, "FeaSemGenD.cfg", "genD", stride=sd, offset=(ctx.seed * 7) % sd)
+        A, B, C, D = fa.result(), fb.result(), fc.result(), fd.result()
     seen = set()
 
     def uniq(lst):
@@ -757,17 +800,36 @@ def main(ctx):
                 out.append(c)
         return out
 
-    A, B, C = uniq(A), uniq(B), uniq(C)
-    common.log("generated%s: A=%d single-lookup programs, B=%d two-lookup programs, C=%d simulated programs" %
-               (" (thinned 1/%d, 1/%d)" % (sa, sb) if quick else "", len(A), len(B), len(C)))
-    nA, nB, nC = (220, 220, 160) if quick else (len(A), len(B), 5000)
+    A, B, C, D = uniq(A), uniq(B), uniq(C), uniq(D)
+    common.log("generated%s: A=%d single-lookup programs, B=%d two-lookup programs, C=%d simulated programs, "
+               "D=%d mark-set programs" %
+               (" (thinned 1/%d, 1/%d, 1/%d)" % (sa, sb, sd) if quick else "", len(A), len(B), len(C), len(D)))
+    nA, nB, nC, nD = (200, 130, 130, 60) if quick else (len(A), len(B), 5000, len(D))
     pick = lambda lst, n: lst if n >= len(lst) else rng.sample(lst, n)
-    # B: two lookups of the same rule type are where only flags/structure separate the lookups; in the quick
-    # sample half of B comes from that stratum (18% of the candidates)
-    same = [c for c in B if len(set(rule_types(c["p"]))) == 1]
-    rest = [c for c in B if len(set(rule_types(c["p"]))) != 1]
-    pickB = B if nB >= len(B) else pick(same, nB // 2) + pick(rest, nB - nB // 2)
-    picked = [("A", pick(A, nA)), ("B", pickB), ("C", pick(C, nC))]
+    # B: the programs where only the lookupflag separates two lookups of one rule type in one block (template aa;
+    # 82 candidates, exempt from the thinning in the spec) are always replayed completely; of the rest, half of
+    # the quick sample are same-type pairs (where only flags and structure separate the lookups).
+    def eff(c):
+        x = 0 if c["fl"][0] == -1 else c["fl"][0]
+        return x, (x if c["fl"][1] == -1 else c["fl"][1])
+    def only_flag_differs(c):
+        return c["tpl"] == "aa" and len(set(rule_types(c["p"]))) == 1 and eff(c)[0] != eff(c)[1]
+    bcrit = [c for c in B if only_flag_differs(c)]
+    brest = [c for c in B if not only_flag_differs(c)]
+    same = [c for c in brest if len(set(rule_types(c["p"]))) == 1]
+    rest = [c for c in brest if len(set(rule_types(c["p"]))) != 1]
+    pickB = B if nB >= len(B) else bcrit + pick(same, nB // 2) + pick(rest, nB - nB // 2)
+    # D: the stratum where two lookups of one rule type in one block are separated ONLY by which mark set /
+    # attachment class the lookupflag names (template aa: nothing else ends the first lookup; 76 candidates)
+    # is always replayed completely, also in the quick tier; the rest of D is sampled.
+    def only_set_differs(c):
+        f = flag_values(c["p"])
+        return (c["tpl"] == "aa" and len(set(rule_types(c["p"]))) == 1 and len(f) == 2 and f[0] != f[1]
+                and f[0] // 100 == f[1] // 100 > 0)
+    dsame = [c for c in D if only_set_differs(c)]
+    drest = [c for c in D if not only_set_differs(c)]
+    pickD = D if nD >= len(D) else dsame + pick(drest, nD)
+    picked = [("A", pick(A, nA)), ("D", pickD), ("B", pickB), ("C", pick(C, nC))]
     if not quick:
         for _, lst in picked:
             rng.shuffle(lst)
@@ -784,12 +846,12 @@ def main(ctx):
     todo = [c for _, lst in picked for c in lst]
     if not quick:
         # all of A first, then B and C interleaved 2:1 so that a run cut short by the budget has seen both
-        b, c = list(picked[1][1]), list(picked[2][1])
+        b, c = list(picked[2][1]), list(picked[3][1])
         mixed = []
         while b or c:
             mixed += b[:1000] + c[:500]
             b, c = b[1000:], c[500:]
-        todo = list(picked[0][1]) + mixed
+        todo = list(picked[0][1]) + list(picked[1][1]) + mixed
     size = len(todo) if quick else 1500
     budget = 17 * 60
     stats = {o: dict(candidates=0, replayed=0, nontrivial=0, dropped={}) for o, _ in picked}
@@ -818,9 +880,9 @@ def main(ctx):
         stats[origin]["selected"] = len(lst)
         common.log("generator %s: %s" % (origin, json.dumps(stats[origin])))
     ev.extra["generated"] = stats
-    ev.extra["generated_candidates"] = {"A": len(A), "B": len(B), "C_distinct_simulated": len(C),
-                                        "A_B_thinning": [sa, sb]}
-    ev.exhaustive = (not quick) and stats["A"]["candidates"] == len(A) and stats["B"]["candidates"] == len(B)
+    ev.extra["generated_candidates"] = {"A": len(A), "B": len(B), "C_distinct_simulated": len(C), "D": len(D),
+                                        "A_B_D_thinning": [sa, sb, sd]}
+    ev.exhaustive = (not quick) and all(stats[o]["candidates"] == len(l) for o, l in (("A", A), ("B", B), ("D", D)))
     if todo:
         ev.extra["not_reached_within_time_budget"] = len(todo)
         common.log("time budget used: %d selected programs not evaluated" % len(todo))
